@@ -3039,7 +3039,13 @@ void vf_run(vf_rd *r, vf_report *rep) {
                                     ? sc_weight[H->kind - H_SC_FIRST]
                                     : 10;
         const uint64_t unit = (tsan ? 640u : 8192u) * (vf_tier() ? 2u : 1u);
-        uint64_t it = (uint64_t)hunits * unit / (hot_span(H->kind, n) * weight);
+        /* the phase-1 operations reused as hot kinds (hot.op.*) may work on
+         * shared objects built from the LARGEST pool array (the shared
+         * dictionary), whatever the hot group's own length is: budget them by
+         * the largest pool length so one case cannot run for minutes */
+        const size_t span_n = H->kind >= H_COUNT && maxn > n ? maxn : n;
+        uint64_t it =
+            (uint64_t)hunits * unit / (hot_span(H->kind, span_n) * weight);
         H->iters = it < 4 ? 4 : it > 40000 ? 40000 : (unsigned)it;
         vf_desc(rep, "] hot=%s par=%u group=%u n=%zu shift=%u iters=%u roles=",
                 hname + 4, H->par, H->group, n, H->shift, H->iters);
